@@ -6,11 +6,12 @@
      3  options -> parameters -> bounds (3 ndim nvar ndir zflat opts chars items roots sillneg defaults vmap)
      4  foxleg bound enforcement (4 delta (list (scale p l u h eps)))
      5  check_param            (5 (list (p l u)))
-     6  ranges written         (6 ndim icov (list parid) (list val) ranges0)
+     6  parameter vector -> Model (6 nvar aniso samerot chars parids vals covas0)
+     9  constant sill, diagonal term (9 cons xr srm)
      7  one Goulard step       (7 n cc lam V)
      8  angles imposed by equality constraints (8 icov items parids angles) *)
 From Coq Require Import List Arith ZArith QArith Qabs Bool.
-From Gst Require Import lib.Sx lib.QAux lib.LinAlgQ C17.Model C17.ModelPar.
+From Gst Require Import lib.Sx lib.QAux lib.LinAlgQ C17.Model C17.ModelPar C17.ModelMap.
 Import ListNotations.
 Local Open Scope Q_scope.
 
@@ -79,6 +80,16 @@ Definition asDefaults (s : sx) : option defaults :=
       match asQ h, asQL dv, asQL an, asZ nr, asZ nc with
       | Some a, Some b, Some c, Some d, Some e => Some (mkD a b c d e)
       | _, _, _, _, _ => None
+      end
+  | _ => None
+  end.
+
+Definition asCova (s : sx) : option cova :=
+  match s with
+  | L [r; a; p; m] =>
+      match asQL r, asQL a, asQ p, asMatQ m with
+      | Some r', Some a', Some p', Some m' => Some (mkCv r' a' p' m')
+      | _, _, _, _ => None
       end
   | _ => None
   end.
@@ -167,10 +178,17 @@ Definition run (c : sx) : sx :=
       | Some ts' => match check_param ts' with None => L [I 0%Z] | Some r => L [I 1%Z; L (map ofPbound r)] end
       | None => sx_error 1
       end
-  | L [I 6%Z; nd; ic; ps; vs; r0] =>
-      match asNat nd, asZ ic, asListOf asParid ps, asQL vs, asQL r0 with
-      | Some ndim, Some icov, Some ps', Some vals, Some ranges0 => L (map ofQ (ranges_of icov ps' vals ranges0))
-      | _, _, _, _, _ => sx_error 1
+  | L [I 6%Z; nv; an; sr; chs; ps; vs; cs] =>
+      match asNat nv, asB an, asB sr, asListOf asChar chs, asListOf asParid ps, asQL vs, asListOf asCova cs with
+      | Some nvar, Some aniso, Some samerot, Some chars, Some ps', Some vals, Some covas =>
+          L (map (fun cv => L [L (map ofQ (cv_ranges cv)); L (map ofQ (cv_angles cv)); ofQ (cv_param cv); ofMat nvar nvar (cv_sill cv)])
+                 (strmod_define aniso samerot nvar chars ps' vals covas))
+      | _, _, _, _, _, _, _ => sx_error 1
+      end
+  | L [I 9%Z; cs; xr; sm] =>
+      match asQ cs, asQ xr, asQ sm with
+      | Some cs', Some xr', Some srm => L [ofQ (alpha_diag cs' xr' srm)]
+      | _, _, _ => sx_error 1
       end
   | L [I 7%Z; n; s; l; v] =>
       match asNat n, asMatQ s, asQL l, asMatQ v with
